@@ -115,3 +115,15 @@ func fallbackFor(line string) func() string {
 		return ""
 	}
 }
+
+// fallbackEP: the decoded-packets request for a request that carries an ep= token
+func fallbackEP(line, ep string) func() string {
+	base := fallbackFor(line)
+	return func() string {
+		l := base()
+		if l == "" {
+			return ""
+		}
+		return l + " ep=" + ep
+	}
+}
